@@ -67,7 +67,7 @@ def part(n, mode):
 
 
 READ_MENU = ("full", "one", "half", "allbutone", "timeout", "eagain")
-WRITE_MENU = ("full", "one", "half", "allbutone")
+WRITE_MENU = ("full", "one", "half", "allbutone", "eagain")     # eagain: non-blocking descriptor, buffer full
 
 
 class Wire(object):
@@ -177,6 +177,9 @@ class FragSocket(object):
         mode = "full"
         if self.chooser is not None and n > 0:
             mode = self.write_menu[self.chooser.choose(len(self.write_menu), "send")]
+        if mode == "eagain":
+            self.calls.append(("send", n, "EAGAIN"))
+            raise BlockingIOError(errno.EAGAIN, "Resource temporarily unavailable")
         k = part(n, mode)
         if limit is not None:
             k = min(k, limit)
@@ -185,6 +188,24 @@ class FragSocket(object):
         self.nwritten += k
         self.calls.append(("send", n, k))
         return k
+
+
+class FakePoll(object):
+    """stand-in for rpyc.lib.compat.poll on fake descriptors: whatever is asked about is ready at once"""
+
+    def __init__(self):
+        self.reg = {}
+
+    def register(self, fd, mode):
+        self.reg[fd] = mode
+
+    modify = register
+
+    def unregister(self, fd):
+        self.reg.pop(fd, None)
+
+    def poll(self, timeout=None):
+        return list(self.reg.items())
 
 
 class FakeFile(object):
